@@ -124,6 +124,9 @@ impl Oracle for C01 {
     fn prop(&self) -> &'static str {
         "C01"
     }
+    fn params(&self) -> serde_json::Value {
+        json!({"limits": self.limits})
+    }
     fn on_state(&self, w: &mut World, _mon: &mut Mon, hist: &[Ev], out: &mut Out) {
         out.distinct.insert(fp64(&crate::world::state_bytes(true)));
         count_shapes(w, hist, out);
